@@ -67,6 +67,7 @@ class Oracle:
         self.owner_of_path = {}
         self.max_bytes = None
         self.persisted_max = None
+        self.persisted_alt = None  # a second candidate for the persisted size (external edit vs. a setter's rewrite)
         # values the 'tolerate missing files' setting may have: the constructor argument, or what an earlier
         # process persisted (either may win on reopen); exactly one value right after the caller set it
         self.allow_ctor = world.knobs.get("allow_missing", True) if world.knobs.get("api", "object") == "object" else True
@@ -218,6 +219,8 @@ class Oracle:
                 total = sum(e[0] for e in pre_files.values())
                 arg = obs.op.get("size") or w.knobs["max_bytes"]
                 lim = self.persisted_max if self.persisted_max is not None else arg
+                if self.persisted_alt is not None:
+                    lim = min(lim, self.persisted_alt)
                 # either the persisted size or the constructor argument may be the one in force
                 if total > min(lim, arg) - 2:
                     self.probe("reopen_oversize_valueerror")
@@ -231,7 +234,8 @@ class Oracle:
             return self._v("18b" if not self.c19 else "19f", "opening the cache contacted a resource: %r" % (obs.fetches,), obs)
         if not self.c19 and self.persisted_max is not None and obs.kind == "REOPEN":
             arg = obs.op.get("size") or w.knobs["max_bytes"]
-            if not any(abs(obs.max_bytes - x) <= 2 for x in (self.persisted_max, arg)):
+            cands = [self.persisted_max, arg] + ([self.persisted_alt] if self.persisted_alt is not None else [])
+            if not any(abs(obs.max_bytes - x) <= 2 for x in cands):
                 return self._v("18e", "after reopen the configured size is %d; the persisted configuration says %d and the "
                                "constructor argument %d" % (obs.max_bytes, self.persisted_max, arg), obs)
         if not self.c19:
@@ -250,6 +254,7 @@ class Oracle:
                                        "states %.0f" % (obs.max_bytes, cfg["size_gb"] * 1e9), obs)
         self.max_bytes = obs.max_bytes
         self.persisted_max = obs.max_bytes
+        self.persisted_alt = None
         self.allow_opts = set(self.allow_opts) | {self.allow_ctor}
         reg = {i for i, b in enumerate(obs.in_cache) if b}
         # start-up eviction obeys the LRU relation with an empty current request
@@ -749,7 +754,8 @@ class Oracle:
             import json as _json
             if (w_is_module(self.w) and isinstance(obs.exc, ValueError)
                     and not isinstance(obs.exc, _json.JSONDecodeError) and post_files
-                    and sum(e[0] for e in post_files.values()) > min(self.persisted_max or 0, self.w.knobs["max_bytes"]) - 2):
+                    and sum(e[0] for e in post_files.values()) > min(self.persisted_max or 0, self.persisted_alt if self.persisted_alt is not None else 10**18,
+                                                                     self.w.knobs["max_bytes"]) - 2):
                 # module-level purge = delete_cache + create_cache: the re-creation adopted orphaned complete
                 # files of an earlier failed request and the directory exceeds its limit: the documented error
                 self.probe("reopen_oversize_valueerror")
@@ -803,6 +809,11 @@ class Oracle:
         if obs.result is None:
             return None
         self.probe("config_set_" + attr)
+        # every setter persists the configuration as the running cache holds it: a value the user edited into the file
+        # while the cache was running may be overwritten by that (or not, if an implementation writes only what changed)
+        if self.max_bytes is not None and self.persisted_max is not None and abs(self.persisted_max - self.max_bytes) > 2:
+            self.persisted_alt = self.persisted_max
+            self.persisted_max = self.max_bytes
         if attr == "allow":
             self.allow_opts = {obs.result[1]}
         elif attr == "grow":
